@@ -78,6 +78,7 @@ def main(argv):
                 rec["count"] += 1
     # minimise the first unknown violation of each oracle (bounded, best effort)
     from . import shrink
+    shrink.ACCEPT = lambda v: findings.match(known, prop, v) is None
     shrink_total = min(60.0, max(10.0, deadline_s * 0.5))
     for oracle, rec in sorted(kept.items()):
         if getattr(mod, "SHRINK", True) and shrink_total > 1:
